@@ -15,7 +15,6 @@ const tokenLSS = token.LSS
 
 const smfPkg = "gitlab.com/gomidi/midi/v2/smf"
 
-
 // deepEqual is reflect.DeepEqual for the value shapes crd and gomidi use it on.
 func (e *Engine) deepEqual(t types.Type, a, b Value) *smt.Term {
 	switch u := under(t).(type) {
